@@ -48,7 +48,8 @@ def plan(tier, seed):
 
 
 def run_shard(spec, acc):
-    prof = gen.profile(p_green=0.9, p_forward=0.6)
+    prof = gen.profile(p_green=0.9, p_forward=0.6,
+                       w={'hand_branch': 0.6, 'push_to_destination': 0.3})
     openers = [None, gen.OPENERS['two_prs_same_base'],
                gen.OPENERS['stab_between_devs'], None,
                gen.OPENERS['dest_moves_while_open'],
@@ -57,7 +58,8 @@ def run_shard(spec, acc):
                gen.OPENERS['admin_branches'], gen.OPENERS['batch_merge'],
                gen.OPENERS['queue_conflict'],
                gen.OPENERS['conflict_resolved'],
-               gen.OPENERS['conflict_resolved']]
+               gen.OPENERS['hand_branch_then_merge'],
+               gen.OPENERS['hand_branch_then_merge']]
     if spec['tier'] == 'quick':
         n_hist, jobs, cap = 9, 12, 600
     else:
